@@ -448,7 +448,10 @@ def r6_own_counts(chk, ym, yx):
     chk.require(len(ctor) == 1, "yield_from_xyz: cls(...) construction not found")
     from ..util import strip_shape_wrappers
 
-    kw = {k.arg: norm(strip_shape_wrappers(k.value)) for k in ctor[0].keywords}
+    from ..canon import Env as _Env
+
+    _yenv = _Env(yx.node)
+    kw = {k.arg: norm(strip_shape_wrappers(_yenv.expand(k.value))) for k in ctor[0].keywords}
     chk.decide(kw.get("n_atoms") == f"{blk}.n_atoms" and kw.get("coords") == f"{blk}.coords", "C10.R6", f"{yx.key}:sized-from-own-block", yx.where(ctor[0]),
                "cls(n_atoms=block.n_atoms, coords=block.coords)", f"the geometry is built with {kw}, not from the block's own count and coordinates")
 
